@@ -15,11 +15,11 @@ GridT == [ kf |-> {<<1, 2>>, <<3, 1>>, <<1, 10>>}, kb |-> {<<1, 3>>, <<2, 1>>, <
            prod |-> {<<0, 1>>, <<1, 2>>, <<3, 1>>}, major |-> {<<7, 2>>, <<1, 1>>, <<11, 1>>},
            minor |-> {<<1, 1>>, <<5, 4>>, <<1, 8>>},
            initial_C |-> {<<1, 2>>, <<3, 1>>, <<1, 100>>}, t0 |-> {<<0, 1>>, <<1, 2>>},
-           r |-> {<<1, 10>>, <<3, 1>>, <<1, 1>>}, p |-> {<<0, 1>>, <<1, 2>>, <<2, 1>>},
-           fr |-> {<<1, 1>>, <<5, 2>>, <<1, 5>>}, fp |-> {<<1, 4>>, <<2, 1>>},
-           fv |-> {<<1, 2>>, <<2, 1>>, <<1, 10>>}, n |-> {<<1, 1>>, <<2, 1>>, <<3, 1>>} ]
+           r |-> {<<1, 10>>, <<3, 1>>, <<1, 1>>}, p |-> {<<0, 1>>, <<1, 2>>},
+           fr |-> {<<1, 1>>, <<5, 2>>, <<1, 5>>}, fp |-> {<<2, 1>>},
+           fv |-> {<<1, 2>>, <<2, 1>>, <<1, 10>>}, n |-> {<<1, 1>>, <<2, 1>>} ]
 TimesQ == {<<0, 1>>, <<1, 3>>, <<2, 1>>}
-TimesT == {<<0, 1>>, <<1, 10>>, <<1, 3>>, <<2, 1>>, <<5, 1>>}
+TimesT == {<<0, 1>>, <<1, 3>>, <<2, 1>>, <<5, 1>>}
 B_All == AllBackends
 F_All == AllFns
 F_Batch == {"dimerization_irrev", "pseudo_irrev", "pseudo_rev", "binary_irrev", "binary_rev"}
